@@ -19,32 +19,42 @@ def _grid(**axes):
 def families(tier):
     q = tier == "quick"
     N = 3 if q else 4
+    # quick: hop counts {0..3} for the core FIFO QueuedResource family and the limit-change races, {0,1,2} elsewhere
+    HQ = (0, 1, 2) if q else H4
     fams = []
 
     def fam(name, kind, cfgs, pats, chunks=4, **bounds):
         pats = list(pats)
         fams.append({"name": name, "kind": kind, "cfgs": cfgs, "patterns": pats, "chunks": chunks,
                      "bounds": dict(bounds, configs=len(cfgs), patterns_per_config=len(pats),
-                                    arrival_ticks=list(T3), hop_counts=list(H4), tick="1 s")})
+                                    arrival_ticks=list(T3), tick="1 s",
+                                    hop_counts=list(H4 if name in ("QR-FIFO", "Server-dynamic", "Server-dynamic-scale-down")
+                                                    or not q else HQ))})
 
     # -- documented-pattern QueuedResource ---------------------------------------------------------
-    fam("QR-FIFO", "QR", _grid(policy=["FIFO"], conc=[1, 2], cap=[None, 1]),
+    fam("QR-FIFO", "QR", _grid(policy=["FIFO"], conc=[1, 2], cap=[None] if q else [None, 1]),
         patterns(N, T3, H4, (0, 1, 2)), chunks=8 if q else 24,
-        requests=f"1..{N}", service_ticks=[0, 1, 2], concurrency=[1, 2], capacity=["inf", 1])
+        requests=f"1..{N}", service_ticks=[0, 1, 2], concurrency=[1, 2], capacity=["inf"] if q else ["inf", 1])
+    if q:
+        fam("QR-FIFO-cap1", "QR", _grid(policy=["FIFO"], conc=[1, 2], cap=[1]),
+            patterns(3, T3, HQ, (1, 2)), chunks=4,
+            requests="1..3", service_ticks=[1, 2], concurrency=[1, 2], capacity=[1])
     if not q:
         fam("QR-FIFO-cap2", "QR", _grid(policy=["FIFO"], conc=[1, 2], cap=[2]),
             patterns(3, T3, H4, (0, 1, 2)), chunks=8,
             requests="1..3", service_ticks=[0, 1, 2], concurrency=[1, 2], capacity=[2])
     fam("QR-LIFO", "QR", _grid(policy=["LIFO"], conc=[1, 2], cap=[None] if q else [None, 2]),
-        patterns(3, T3, H4, (1, 2) if q else (0, 1, 2)), chunks=8,
+        patterns(3, T3, HQ, (1, 2) if q else (0, 1, 2)), chunks=8,
         requests="1..3", service_ticks=[1, 2] if q else [0, 1, 2], concurrency=[1, 2])
-    fam("QR-Priority", "QR", _grid(policy=["Priority"], conc=[1, 2], cap=[None, 2]),
-        patterns(3, T3, H4, (1,) if q else (0, 1), prios=(0, 1)), chunks=4 if q else 16,
+    fam("QR-Priority", "QR",
+        [dict(policy="Priority", conc=1, cap=None), dict(policy="Priority", conc=2, cap=None),
+         dict(policy="Priority", conc=1, cap=2)] if q else _grid(policy=["Priority"], conc=[1, 2], cap=[None, 2]),
+        patterns(3, T3, HQ, (1,) if q else (0, 1), prios=(0, 1)), chunks=4 if q else 16,
         requests="1..3", service_ticks=[1] if q else [0, 1], priorities=[0, 1], concurrency=[1, 2],
         capacity=["inf", 2])
     # -- hand-wired Queue + QueueDriver + worker -----------------------------------------------------
     fam("QDW-FIFO", "QDW", _grid(policy=["FIFO"], conc=[1, 2], cap=[None]),
-        patterns(N, T3, H4, (1, 2) if q else (0, 1, 2)), chunks=8 if q else 24,
+        patterns(N, T3, HQ, (1, 2) if q else (0, 1, 2)), chunks=8 if q else 24,
         requests=f"1..{N}", service_ticks=[1, 2] if q else [0, 1, 2], concurrency=[1, 2], capacity=["inf"])
     if not q:
         fam("QDW-FIFO-cap1", "QDW", _grid(policy=["FIFO"], conc=[1, 2], cap=[1]),
@@ -52,101 +62,111 @@ def families(tier):
             requests="1..3", service_ticks=[0, 1, 2], concurrency=[1, 2], capacity=[1])
     # -- Server with each concurrency model ------------------------------------------------------------
     fam("Server-int-FIFO", "Server", _grid(model=["int"], policy=["FIFO"], conc=[1, 2], cap=[None]),
-        patterns(N, T3, H4, (1, 2) if q else (0, 1, 2)), chunks=8 if q else 24,
+        patterns(N, T3, HQ, (1, 2) if q else (0, 1, 2)), chunks=8 if q else 24,
         requests=f"1..{N}", service_tick_sequences=[1, 2] if q else [0, 1, 2], concurrency=[1, 2], capacity=["inf"])
     if not q:
         fam("Server-int-FIFO-cap1", "Server", _grid(model=["int"], policy=["FIFO"], conc=[1, 2], cap=[1]),
             patterns(3, T3, H4, (0, 1, 2)), chunks=8,
             requests="1..3", service_tick_sequences=[0, 1, 2], concurrency=[1, 2], capacity=[1])
     fam("Server-fixed-LIFO-Priority", "Server",
-        _grid(model=["fixed"], policy=["LIFO", "Priority"], conc=[1, 2], cap=[None]),
-        patterns(3, T3, H4, (1, 2), prios=(0, 1)) if not q else patterns(3, T3, H4, (1,), prios=(0, 1)), chunks=4,
+        [dict(model="fixed", policy="LIFO", conc=2, cap=None), dict(model="fixed", policy="Priority", conc=1, cap=None),
+         dict(model="fixed", policy="Priority", conc=2, cap=None)] if q
+        else _grid(model=["fixed"], policy=["LIFO", "Priority"], conc=[1, 2], cap=[None]),
+        patterns(3, T3, HQ, (1, 2), prios=(0, 1)) if not q else patterns(3, T3, HQ, (1,), prios=(0, 1)), chunks=4,
         requests="1..3", priorities=[0, 1])
     dyn = dict(model="dynamic", policy="FIFO", cap=None)
     fam("Server-dynamic", "Server",
-        [dict(dyn, conc=c, knob=[], ctl_first=True) for c in (1, 2)]
+        [dict(dyn, conc=c, knob=[], ctl_first=True) for c in ((2,) if q else (1, 2))]
         + [dict(dyn, conc=1, knob=[(1, 2)], ctl_first=f) for f in (True, False)]
-        + [dict(dyn, conc=2, knob=[(1, 1), (2, 2)], ctl_first=f) for f in (True, False)]
+        # the limit is raised through EVERY public method: set_limit, scale_up, scale_down followed by scale_up
+        + [dict(dyn, conc=1, knob=[(1, ["up", 1])], ctl_first=f) for f in (True, False)]
+        + [dict(dyn, conc=2, knob=[(1, ["down", 1]), (2, ["up", 1])], ctl_first=f)
+           for f in ((True,) if q else (True, False))]
+        + ([] if q else [dict(dyn, conc=2, knob=[(1, 1), (2, 2)], ctl_first=f) for f in (True, False)])
         + ([] if q else [dict(dyn, conc=c, knob=k, ctl_first=f) for c in (1, 2) for k in ([(1, 1)], [(2, 3)])
                          for f in (True, False)]),
         patterns(3, T3, H4, (1, 2)), chunks=4,
         requests="1..3", service_tick_sequences=[1, 2], initial_limit=[1, 2],
         set_limit_schedules=["none", "t1->2", "t1->1,t2->2"] if q else ["none", "t1->2", "t1->1", "t2->3", "t1->1,t2->2"],
+        limit_raised_through=["set_limit(2) at t1", "scale_up(1) at t1", "scale_down(1) at t1 then scale_up(1) at t2"],
         control_events_created=["before the arrivals", "after the arrivals"])
     # a limit DECREASE issued on arrival instants, itself travelling through 0..3 forwarders (both creation
     # orders): it can land between the queue's dequeue and the worker's receipt of a request
     fam("Server-dynamic-scale-down", "Server",
-        [dict(dyn, conc=2, knob=k, knob_hops=h, ctl_first=f) for k in ([(1, 1)], [(2, 1)]) for h in (0, 1, 2, 3)
-         for f in (True, False)],
+        [dict(dyn, conc=2, knob=[(1, 1)], knob_hops=h, ctl_first=f) for h in (0, 1, 2, 3) for f in (True, False)]
+        + [dict(dyn, conc=2, knob=[(2, 1)], knob_hops=h, ctl_first=f)
+           for h in ((0, 2) if q else (0, 1, 2, 3)) for f in ((True,) if q else (True, False))],
         list(patterns(3, T3, H4, (1,))) + list(patterns(3, T3, H4, (2,))) if q else patterns(3, T3, H4, (1, 2)),
         chunks=2, requests="1..3", service_tick_sequences=["all 1", "all 2"] if q else [1, 2], initial_limit=[2],
         set_limit_schedules=["t1->1", "t2->1"], limit_change_hops=[0, 1, 2, 3],
         control_events_created=["before the arrivals", "after the arrivals"])
     fam("Server-weighted", "Server", _grid(model=["weighted"], policy=["FIFO"], conc=[2, 3], cap=[None]),
-        patterns(3, T3, H4, (1,) if q else (1, 2), weights=(1, 2)), chunks=4,
+        patterns(3, T3, HQ, (1,) if q else (1, 2), weights=(1, 2)), chunks=4,
         requests="1..3", weights=[1, 2], total_capacity=[2, 3])
     fam("Server-native-capacity", "Server",
         _grid(model=["int"], policy=["FIFO"], conc=[1], cap=[1, 2], native_cap=[True]),
-        patterns(3, T3, H4, (1, 2)), chunks=4, requests="1..3", queue_capacity=[1, 2])
+        patterns(3, T3, HQ, (1, 2)), chunks=4, requests="1..3", queue_capacity=[1, 2])
     # -- Server in front of time-based / adaptive policies (Queue.dispatch_guard looks at peek(), then pops) ---------
     fam("Server-Deadline", "Server", _grid(model=["int"], policy=["Deadline"], conc=[1], cap=[None]),
-        list(patterns(3, T3, H4, (2,), prios=(1, 5)))
+        list(patterns(3, T3, HQ, (2,), prios=(1, 5)))
         + list(patterns(4, (0, 1), (0,), (2,), prios=(1, 5, 9), n_min=4)), chunks=4,
         requests="1..3 (+ bursts of 4 over ticks {0,1}, hop 0, deadlines {1,5,9})", service_ticks=[2],
         relative_deadline_ticks=[1, 5], note="deadline = creation tick + relative deadline on the simulation clock; "
         "heads expire while the worker is busy")
     fam("Server-Adaptive-CoDel", "Server", _grid(model=["int"], policy=["Adaptive", "CoDel"], conc=[1], cap=[None]),
-        list(patterns(3, T3, H4, (2,))) + list(patterns(4, (0, 1), (0, 1), (1, 3), n_min=4)), chunks=2,
+        list(patterns(3, T3, HQ, (2,))) + list(patterns(4, (0, 1), (0, 1), (1, 3), n_min=4)), chunks=2,
         requests="1..3 (+ bursts of 4 over ticks {0,1} x hops {0,1})", service_ticks=[2, "1,3 in bursts"],
         policies=["AdaptiveLIFO(threshold 2)", "CoDelQueue(target 1 s, interval 1 s)"])
     # -- two stages feeding one another ----------------------------------------------------------------
     fam("Tandem-QR", "QR", _grid(policy=["FIFO"], conc=[1, 2], cap=[None], stages=[2]),
-        patterns(3, T3, H4, (1, 2)), chunks=4, requests="1..3", stages=2, service_ticks=[1, 2])
+        patterns(3, T3, HQ, (1, 2)), chunks=4, requests="1..3", stages=2, service_ticks=[1, 2])
     fam("Tandem-Server", "Server", _grid(model=["int"], policy=["FIFO"], conc=[1], cap=[None], stages=[2]),
-        patterns(3, T3, H4, (1,) if q else (1, 2)), chunks=4, requests="1..3", stages=2)
+        patterns(3, T3, HQ, (1,) if q else (1, 2)), chunks=4, requests="1..3", stages=2)
     # -- industrial variants ---------------------------------------------------------------------------
     fam("Shifted", "Shifted",
         [dict(caps=c, default=d, svc=s, cap=None) for (c, d) in
          [((1,), 1), ((2,), 2), ((0, 1), 1), ((0, 2), 2), ((1, 0, 2), 2), ((2, 1), 1), ((1, 2), 2)] for s in (1, 2)],
-        patterns(3 if q else 4, T3, H4, (0,)), chunks=2,
+        patterns(3 if q else 4, T3, HQ, (0,)), chunks=2,
         requests=f"1..{3 if q else 4}", shift_capacities_per_tick=["1", "2", "0,1", "0,2", "1,0,2", "2,1", "1,2"],
         service_ticks=[1, 2])
     # waits of 0..4 ticks occur; patience is enumerated below, at and above them
     fam("Reneging", "Reneging", _grid(conc=[1, 2], patience=[0, 1, 2], cap=[None]),
-        patterns(3, T3, H4, (1,) if q else (1, 2)), chunks=4, requests="1..3", patience_ticks=[0, 1, 2],
+        patterns(3, T3, HQ, (1,) if q else (1, 2)), chunks=4, requests="1..3", patience_ticks=[0, 1, 2],
         concurrency=[1, 2], service_ticks=[1] if q else [1, 2])
     fam("Reneging-long-service", "Reneging",
         [dict(conc=1, patience=1, cap=None), dict(conc=1, patience=3, cap=None), dict(conc=1, patience=1, cap=1)],
-        patterns(3, T3, H4, (3,) if q else (2, 3)), chunks=2, requests="1..3", patience_ticks=[1, 3],
+        patterns(3, T3, HQ, (3,) if q else (2, 3)), chunks=2, requests="1..3", patience_ticks=[1, 3],
         concurrency=[1], service_ticks=[3] if q else [2, 3], capacity=["inf", 1],
         relation="service longer than / equal to patience and longer than the arrival span")
     fam("Balking", "Balking", _grid(conc=[1], thr=[1] if q else [1, 2], cap=[None, 2]),
-        patterns(3, T3, H4, (1,), rs=R2), chunks=4, requests="1..3", balk_threshold=[1] if q else [1, 2],
+        patterns(3, T3, HQ, (1,), rs=R2), chunks=4, requests="1..3", balk_threshold=[1] if q else [1, 2],
         owned_random_answers=list(R2))
     fam("Pooled", "Pooled", _grid(conc=[1, 2], svc=[0, 1, 2, 3], cap=[None, 1]),
-        patterns(3 if q else 4, T3, H4, (0,)), chunks=2,
+        patterns(3 if q else 4, T3, HQ, (0,)), chunks=2,
         requests=f"1..{3 if q else 4}", pool_size=[1, 2], cycle_ticks=[0, 1, 2, 3], queue_capacity=["unlimited", 1])
     fam("Pooled-burst4", "Pooled", _grid(conc=[1, 2], svc=[0, 1], cap=[None, 1, 2]),
         patterns(4, (0, 1), (0, 1), (0,), n_min=4), chunks=1,
         requests="4", pool_size=[1, 2], cycle_ticks=[0, 1], queue_capacity=["unlimited", 1, 2],
         note="arrival ticks {0,1} x hops {0,1} only")
     fam("Conveyor", "Conveyor", _grid(conc=[None, 1, 2], svc=[0, 1, 2, 3]),
-        patterns(3 if q else 4, T3, H4, (0,)), chunks=2,
+        patterns(3 if q else 4, T3, HQ, (0,)), chunks=2,
         requests=f"1..{3 if q else 4}", belt_capacity=["unlimited", 1, 2], transit_ticks=[0, 1, 2, 3],
         relation="transit shorter than, equal to and longer than the arrival span")
     fam("Gate", "Gate",
         [dict(schedule=s, open0=o, cap=c, ctl_first=f) for s in ([], [(1, 2)], [(2, 3)], [(1, 3)], [(0, 1), (2, 4)])
-         for o in (True, False) for c in (None, 1) for f in ((True, False) if s else (True,))]
+         for o in (True, False) for c in (None, 1) for f in ((True, False) if s else (True,))
+         # quick: the bounded queue only where something can queue up (gate closed at the start)
+         if not (q and c == 1 and o)]
         # a zero-length window (opens and closes on one instant) in front of a closed gate
         + [dict(schedule=[(1, 1)], open0=False, cap=c, ctl_first=f) for c in (None, 1) for f in (True, False)],
-        patterns(3 if q else 4, T3, H4, (0,)), chunks=2,
+        patterns(3 if q else 4, T3, HQ, (0,)), chunks=2,
         requests=f"1..{3 if q else 4}", schedules=["none", "1-2", "2-3", "1-3", "0-1,2-4", "1-1 (zero length)"],
         initially_open=[True, False], queue_capacity=["unlimited", 1],
         control_events_created=["before the arrivals", "after the arrivals"])
     # process_time is enumerated BELOW, AT and ABOVE the timeout: with process_time > timeout a partial batch's
     # timeout fires while an earlier full batch is still in service
     fam("Batch", "Batch", _grid(batch=[1, 2, 3], svc=[0, 1, 3], timeout=[0, 1, 2]),
-        patterns(3 if q else 4, T3, H4, (0,)), chunks=2,
+        patterns(3 if q else 4, T3, HQ, (0,)), chunks=2,
         requests=f"1..{3 if q else 4}", batch_size=[1, 2, 3], process_ticks=[0, 1, 3], timeout_ticks=[0, 1, 2],
         relation="process_time <, =, > timeout")
     fam("Batch-burst4", "Batch", _grid(batch=[2, 3], svc=[1, 2, 3], timeout=[1, 2]),
